@@ -222,7 +222,8 @@ def fuzz_lib(cfg):
 def fuzz_bin(cfg):
     d = fuzz_lib(cfg)
     src = os.path.join(VERIF, "fuzz", "fuzz_api.cpp")
-    deps = [src, os.path.join(VERIF, "ref", "ascon_ref.hpp"), os.path.join(VERIF, "harness", "trng_tape.c"), os.path.join(VERIF, "harness", "trng_tape.h")]
+    deps = [src, os.path.join(VERIF, "ref", "ascon_ref.hpp"), os.path.join(VERIF, "harness", "trng_tape.c"), os.path.join(VERIF, "harness", "trng_tape.h"),
+            os.path.join(VERIF, "harness", "adp_masked.c"), os.path.join(VERIF, "harness", "adp_masked.h")]
     h = hashlib.sha256()
     for p in deps:
         h.update(open(p, "rb").read())
@@ -235,8 +236,13 @@ def fuzz_bin(cfg):
     rc, o = sh(["clang", "-c", "-g", "-O1", "-DTAPE_WORDS", "-I", os.path.join(VERIF, "harness"), deps[2], "-o", tape])
     if rc != 0:
         raise InfraError("tape compile failed: " + o)
+    adp = out + ".adp.o"
+    rc, o = sh(["clang", "-c", "-g", "-O1", "-fsanitize=fuzzer-no-link,address,undefined", "-fno-sanitize-recover=undefined", "-fno-sanitize=nonnull-attribute", "-DHAVE_CONFIG_H"] + hb.BACKEND_DEF[cfg.backend] +
+                ["-I", os.path.join(VERIF, "harness"), "-I", os.path.join(REPO, "src"), "-I", d, "-I", os.path.join(REPO, "src", "ascon"), os.path.join(VERIF, "harness", "adp_masked.c"), "-o", adp])
+    if rc != 0:
+        raise InfraError("adapter compile (clang) failed: " + o[-2000:])
     cmd = ["clang++", "-std=gnu++17", "-g", "-O1", "-fsanitize=fuzzer,address,undefined", "-fno-sanitize-recover=undefined", "-fno-sanitize=nonnull-attribute",
-           "-I", os.path.join(VERIF, "ref"), "-I", os.path.join(VERIF, "harness"), "-I", os.path.join(REPO, "src"), src, tape, os.path.join(d, "src", "libascon_static.a"), "-o", out + ".tmp"]
+           "-I", os.path.join(VERIF, "ref"), "-I", os.path.join(VERIF, "harness"), "-I", os.path.join(REPO, "src"), src, tape, adp, os.path.join(d, "src", "libascon_static.a"), "-o", out + ".tmp"]
     rc, o = sh(cmd)
     if rc != 0:
         raise InfraError("fuzz target build failed:\n" + o[-4000:])
